@@ -139,6 +139,12 @@ func (ch *channel) addInitDataAndUpdateTimescale(stream stream, init *mp4.InitSe
 	}
 	trak := moov.Traks[0]
 
+	// The channel state (start time, track table, MPD) is shared by the handlers of all tracks
+	// and by the channel goroutine, so it is only changed under the channel lock.
+	verifGate("reg:" + r.name)
+	ch.mu.Lock()
+	defer ch.mu.Unlock()
+
 	ch.startTime = 0 // 1970-01-01T00:00:00Z
 
 	creationTimeS := moov.Mvhd.CreationTimeS()
@@ -180,7 +186,7 @@ func (ch *channel) addInitDataAndUpdateTimescale(stream stream, init *mp4.InitSe
 	stsd := trak.Mdia.Minf.Stbl.Stsd
 	sampleEntry := stsd.Children[0].Type()
 
-	ch.addTrData(r)
+	ch.addTrDataLocked(r)
 	switch sampleEntry {
 	case "avc1", "hvc1", "mp4a", "ac-3", "ec-3", "stpp", "wvtt":
 		// OK
@@ -289,7 +295,12 @@ func (ch *channel) addChunkData(rsd recSegData) {
 	ch.recSegCh <- rsd
 }
 
+// receivedSegData runs in the channel goroutine. It holds the channel lock, since it reads the
+// track table and the MPD that the upload handlers extend, and sets the master track values
+// that the upload handlers read.
 func (ch *channel) receivedSegData(rsd recSegData) {
+	ch.mu.Lock()
+	defer ch.mu.Unlock()
 	defer verifProcess(ch, &rsd)
 	log := slog.Default().With("chName", ch.name, "trName", rsd.name, "seqNr", rsd.seqNr)
 	if _, ok := ch.trDatas[rsd.name]; !ok {
@@ -335,7 +346,6 @@ func (ch *channel) receivedSegData(rsd recSegData) {
 					}
 					dur := sdb.items[1].dur
 					ch.masterSegDuration = dur
-					ch.mu.Lock()
 					rd := ch.trDatas[name]
 					ch.masterTimescale = rd.timeScaleOut
 					segTime0 := int64(sdb.items[0].dts)
@@ -353,7 +363,6 @@ func (ch *channel) receivedSegData(rsd recSegData) {
 						log.Info("Initial segment time", "seqNr0", seqNr0, "segTime0", segTime0,
 							"seqNrShift", ch.masterSeqNrShift, "timeShift", ch.masterTimeShift)
 					}
-					ch.mu.Unlock()
 					ch.deriveAndSetBitrates()
 					ch.deriveAndSetFrameRates(log)
 					err = ch.updateAndWriteMPD(log)
@@ -380,8 +389,13 @@ func (ch *channel) receivedSegData(rsd recSegData) {
 // If no previous video representation, this becomes the master track.
 // TODO. Handle audio-only case (no video representation).
 func (ch *channel) addTrData(rd *trData) {
-	verifGate("reg:" + rd.name)
 	ch.mu.Lock()
+	defer ch.mu.Unlock()
+	ch.addTrDataLocked(rd)
+}
+
+// addTrDataLocked is addTrData for callers that already hold ch.mu.
+func (ch *channel) addTrDataLocked(rd *trData) {
 	firstVideoTrack := true
 	for _, rep := range ch.trDatas {
 		if rep.contentType == "video" {
@@ -395,7 +409,6 @@ func (ch *channel) addTrData(rd *trData) {
 	ch.trDatas[rd.name] = rd
 	ch.trIDs = append(ch.trIDs, rd.name)
 	sort.Strings(ch.trIDs)
-	ch.mu.Unlock()
 }
 
 func extractVideoData(stsd *mp4.StsdBox, rep *m.RepresentationType) error {
